@@ -38,6 +38,26 @@ claimed = {
   ref="DESIGN.md §3 C10",
   bounds=["genesis + <=2 (quick) / <=3 (thorough) vertices; addresses are 1-byte strings (the guards only compare for equality)"],
   outside=["address aliasing (one key, several address strings) belongs to C04", "LoadDag racing with admissions"]),
+ "C07": dict(
+  text="The real truncate (three ancestor walks with the real walker goroutine, fundsMemMap, storage writes, vertex deletion) runs with the cut depth made small (newHashAtDepth(1000) replaced by a harness-chosen depth; natively the history is padded so the production constant selects the same cut). Structure: for EVERY DAG shape with <=4 (quick) / <=5 (thorough) vertices and every depth the moved set is exactly the ancestry of one live vertex, every moved vertex/transaction stays readable, identical and indexed, nothing else leaves the DAG, a failed truncation moves nothing. Funds: on chains/diamonds with enumerated party patterns (incl. self-transfer), symbolic amounts and optional earlier checkpoint: checkpoint = previous + unbounded-integer net flow of exactly the moved set; balance of every wallet and the validation verdict of the tip are unchanged; moved vertices/transactions are refused on re-submission.",
+  ref="DESIGN.md §3 C07",
+  bounds=["structure: genesis + 4 (quick) / 5 (thorough) vertices, all shapes, every cut depth 1..n, concrete parties/amounts", "funds: genesis + 3 vertices (chain or diamond), 4 party patterns per vertex incl. issuer = receiver, all canonical amounts with currency < 2^59, cut depth 1..2, with/without an earlier checkpoint (i.e. a second truncation), queried wallet A/B/C", "pre-state assumed to satisfy C01 (every confirmed vertex covered in its own history)"],
+  outside=["the production cut depth 1000 and DAGs above the bound (replays pad to 1000)", "a data-only tip whose declared parent is moved by a very shallow cut is afterwards rejected for its missing parent (observation, needs a tip referring to a >1000-deep parent in production)", "balance seen through a side tip that does not descend from the cut", "truncation racing with proposals (truncate holds the ledger lock throughout)"]),
+ "C13": dict(
+  text="Every delivery order (with a duplicate and 0..2 retry ticks between deliveries) of a valid 3-vertex history in three shapes ends, after at most 40 further retry ticks, in the parents-first ledger: every vertex admitted exactly once with its declared edges, buffer drained; orphans are reported and parked once with an incremented counter, a dangling orphan is retried exactly 26 times and dropped; insert's bounds are decided for every counter value and the full buffer; the retry path re-runs the duplicate / sealed-transaction gates. The retry loop is the real getNext + addLeafMemorized driven by the harness instead of the 2 s ticker.",
+  ref="DESIGN.md §3 C13",
+  bounds=["3 vertices above genesis, 3 shapes x 6 delivery orders x duplicate yes/no x 0..2 ticks after each delivery", "creation timestamps symbolic within a 4 s window (clock skew)", "retry counter symbolic 0..100 in the counter lemma"],
+  outside=["more than 3 vertices in flight; the 500-entry capacity is checked only at exactly 500 (pre-filled buffer)", "the ticker goroutine itself (its data race with insert belongs to C18)"]),
+ "C19": dict(
+  text="vertex<->protobuf and transaction<->protobuf mappings: for symbolic field contents (strings and bytes fields of length 0..3 incl. nil and empty, all 64-bit integers, any int64 nanosecond timestamp, 32 symbolic bytes per hash) every signed field comes back identical; the mapping's own validity predicate is decided (encode refuses only incomplete transactions, decode additionally refuses the exact epoch timestamp).",
+  ref="DESIGN.md §3 C19",
+  bounds=["string/bytes fields: nil, empty, or 1..3 arbitrary bytes; integers and timestamps full width"],
+  outside=["msgpack pairs (vmihailenco Marshal / shamaton Unmarshal) are reflection/unsafe driven and cannot be executed symbolically: ASSUMED ideal", "the protobuf wire codec (modelled as a deep copy with empty bytes -> nil); fields longer than 3 bytes (the mappings have no length-dependent behaviour except the 32-byte hash conversions, which C15 covers)"]),
+ "C20": dict(
+  text="aeswrapper.Decrypt / Encrypt and fileoperations.SaveWallet / ReadWallet executed symbolically over an ideal AEAD: a file of ANY length 0..48 with any key length never panics and is an error unless it is literally what Encrypt produced under the same key; every truncation length, every single-byte change, every other key (all key bytes symbolic) and malformed passwords yield an error and the zero wallet; the round trip returns the identical key pair and address.",
+  ref="DESIGN.md §3 C20",
+  bounds=["file length 0..48 symbolic with symbolic content; keys 16/24/32/other lengths, all bytes symbolic; plaintext 0..8 bytes (aeswrapper) or the wallet token (fileoperations)"],
+  outside=["AES-GCM itself (ideal AEAD: Open succeeds iff key, nonce and ciphertext are literally a recorded Seal)", "GOB and PEM/x509 codecs (ideal codec)", "os file system faults"]),
 }
 
 NA_DEFAULT = "check not built yet in this session; see DESIGN.md §6 build order"
